@@ -21,7 +21,74 @@ let c06_p_line (l : string) : string =
   if ps = [] || List.exists (List.exists (fun o -> o = None)) ps then "BADCASE"
   else e2_show (c06_run e2_fuel (List.map (List.map (function Some o -> o | None -> OCore ONop)) ps)
                   (c06_init (List.map c06_kind decls)))
+(* ---------- E3 helpers (copy this block into the runner of any other E3 property) ---------- *)
+let fnv_digest (entries : string list) : string =
+  let h = ref 0xcbf29ce484222325L in
+  let feed c = h := Int64.mul (Int64.logxor !h (Int64.of_int (Char.code c))) 0x100000001b3L in
+  List.iteri (fun k s -> if k > 0 then feed ' '; String.iter feed s) entries;
+  Printf.sprintf "%016Lx" !h
+let parse_schedule (s : string) : nat list =
+  let l = ref [] in
+  String.iter (fun c ->
+    if c >= '0' && c <= '9' then l := nat_of_int (Char.code c - 48) :: !l
+    else if c >= 'a' && c <= 'z' then l := nat_of_int (10 + Char.code c - 97) :: !l) s;
+  List.rev !l
+(* one log entry from an observation; addr_name : class -> string ; user_name : code -> string *)
+let fmt_obs (addr_name : int -> string) (user_name : int -> string) (p : nat) (o : obs) : string =
+  let z = string_of_z in
+  let a () =
+    let nm = addr_name (int_of_z o.o_addr) in
+    let i = int_of_z o.o_idx in
+    if i >= 0 then Printf.sprintf "%s[%d]" nm i else nm in
+  let pp = string_of_int (int_of_nat p) in
+  let done_mark = if int_of_z o.o_kind <> 3 && int_of_z o.o_v4 = 1 then "!" else "" in
+  (fun s -> s ^ done_mark) @@
+  match int_of_z o.o_kind with
+  | 0 -> Printf.sprintf "%s.ld.%s.%s" pp (a ()) (z o.o_v1)
+  | 1 -> Printf.sprintf "%s.st.%s.%s" pp (a ()) (z o.o_v1)
+  | 2 -> Printf.sprintf "%s.xg.%s.%s.%s" pp (a ()) (z o.o_v1) (z o.o_v2)
+  | 3 -> Printf.sprintf "%s.cas.%s.%s.%s.%s.%s" pp (a ()) (z o.o_v1) (z o.o_v2) (z o.o_v3) (z o.o_v4)
+  | 4 -> Printf.sprintf "%s.fa.%s.%s.%s" pp (a ()) (z o.o_v1) (z o.o_v2)
+  | 5 -> Printf.sprintf "%s.fs.%s.%s.%s" pp (a ()) (z o.o_v1) (z o.o_v2)
+  | 6 -> Printf.sprintf "%s.fo.%s.%s.%s" pp (a ()) (z o.o_v1) (z o.o_v2)
+  | 7 -> Printf.sprintf "%s.fn.%s.%s.%s" pp (a ()) (z o.o_v1) (z o.o_v2)
+  | 8 -> Printf.sprintf "%s.sp" pp
+  | 9 -> (match int_of_z o.o_idx with
+          | 0 -> Printf.sprintf "%s.%s" pp (user_name (int_of_z o.o_addr))
+          | 1 -> Printf.sprintf "%s.%s.%s" pp (user_name (int_of_z o.o_addr)) (z o.o_v1)
+          | _ -> Printf.sprintf "%s.%s.%s.%s" pp (user_name (int_of_z o.o_addr)) (z o.o_v1) (z o.o_v2))
+  | _ -> Printf.sprintf "%s.none" pp
+(* ---------- end of E3 helpers ---------------------------------------------------------------- *)
+
+(* Q-lines: E3 schedules over the qrwlock state word (model: coq/C06/C06_QE3.v) *)
+let q_addr_name = function 0 -> "ls" | 1 -> "spin" | _ -> "?"
+let q_user_name (_ : int) = "?"
+let q_parse_op = function "w" -> Some OTryW | "r" -> Some OTryR | "u" -> Some OUnlock | _ -> None
+let c06_q_line (line : string) : string =
+  try
+    let fields = List.map String.trim (String.split_on_char '|' line) in
+    let hd = List.hd fields in
+    let rest = List.tl fields in
+    let hw = split_on ' ' hd in
+    let bound = int_of_string (List.nth hw 1) in
+    let full = (match List.nth_opt hw 2 with Some "full" -> true | _ -> false) in
+    let nrest = List.length rest in
+    if nrest < 2 || bound <= 0 then "BADCASE" else
+    let scripts_s = List.filteri (fun i _ -> i < nrest - 1) rest in
+    let sched = parse_schedule (List.nth rest (nrest - 1)) in
+    let scripts = List.map (fun s -> List.filter_map q_parse_op (split_on ' ' s)) scripts_s in
+    let ((st, log), livelock) = qe3_run scripts (nat_of_int bound) sched in
+    let entries = List.filter_map (fun (p, o) -> if int_of_z o.o_kind = 10 then None else Some (fmt_obs q_addr_name q_user_name p o)) log in
+    let n = List.length scripts in
+    let res = String.concat "|" (List.init n (fun p ->
+      let pn = nat_of_int p in
+      String.concat "," (List.rev_map string_of_z (st.e_res pn)) ^ (if e3fin st pn then "" else "*"))) in
+    Printf.sprintf "steps=%d %s log=%s res=%s final=%s%s" (List.length entries) (if livelock then "livelock" else "ok")
+      (fnv_digest entries) res (string_of_z st.e_q.ls) (if full then " LOG " ^ String.concat " " entries else "")
+  with _ -> "BADCASE"
+
 let () =
   iter_lines Sys.argv.(1) (fun l ->
     if String.length l > 0 && l.[0] = 'P' then print_endline (c06_p_line l)
+    else if String.length l > 0 && l.[0] = 'Q' then print_endline (c06_q_line l)
     else print_endline "BADCASE")
